@@ -193,10 +193,14 @@ pub fn transform_arguments_with_child_context(
 ) -> Vec<ArgumentKeyAndValue> {
     arguments
         .map(|arg| {
-            transform_selection_field_argument_into_merged_arg_with_child_context(
+            let arg = transform_selection_field_argument_into_merged_arg_with_child_context(
                 arg,
                 transformed_child_variable_context,
-            )
+            );
+            ArgumentKeyAndValue {
+                key: arg.key,
+                value: arg.value.without_locations(),
+            }
         })
         .collect::<Vec<_>>()
 }
